@@ -32,7 +32,7 @@ Inductive op :=
   | SetAt (s : Z) (i : ix) (v : Z) | SetIndexMut (s : Z) (i : ix) (v : Z)
   | Swap (s : Z) (i j : ix) | SwapRows (s a b : Z) | SwapCols (s a b : Z) | Overwrite (d s : Z)
   (* maps *)
-  | Apply (s f : Z) | MapOp (d s f : Z) | MapRef (d s f : Z) | CloneOp (d s : Z) | NegOp (d s : Z) | NegRef (d s : Z)
+  | Apply (s f : Z) | MapOp (d s f : Z) | MapRef (d s f : Z) | CloneOp (d s : Z) | CloneFrom (d s : Z) | NegOp (d s : Z) | NegRef (d s : Z)
   (* elementwise *)
   | Ew (d a b f : Z) | EwConsume (d a b f : Z) | EwAssign (a b f : Z)
   | EwNamed (opk variant d a b : Z) | OpEw (opk form d a b : Z) | OpEwAssign (opk form a b : Z)
@@ -232,6 +232,8 @@ Definition step (p : pool) (o : op) : pool * obs :=
   | MapOp d s f => dest d (need1 s (fun m => store (put p s None) d (Val (map_matrix c es (fn1 f) m))))
   | MapRef d s f => dest d (need1 s (fun m => store p d (Val (map_matrix c es (fn1 f) m))))
   | CloneOp d s => dest d (need1 s (fun m => (put p d (Some m), OUnit)))
+  (* Clone::clone_from: the receiver (which must exist) becomes a copy of the source *)
+  | CloneFrom d s => if d =? s then (p, OInvalid) else need2 d s (fun md ms => (put p d (Some ms), OUnit))
   | NegOp d s => dest d (need1 s (fun m => store_op (put p s None) d (Val (map_matrix c es (Un 0) m))))
   | NegRef d s => dest d (need1 s (fun m => store_op p d (Val (map_matrix c es (Un 0) m))))
   (* ----- elementwise ----- *)
